@@ -63,6 +63,16 @@ def numbering(coarse, fine, all_atom, shared_atoms):
             if len(names) != len(set(names)):
                 dup = sorted(x for x in set(names) if names.count(x) > 1)
                 out.append(("C12.naming", "coarse node %r has duplicate atom names %r" % (cnode, dup[:5])))
+            elif not shared_atoms:
+                # "element plus a running index": the index runs along the atoms of the coarse node (ascending keys);
+                # judged where the statement is explicit, i.e. without shared atoms (a shared atom is sorted behind
+                # the hydrogens of its first owner but named before them)
+                ordered = sorted(sub.nodes)
+                indices = [int(ATOMNAME.match(sub.nodes[n].get("atomname") or "X0").group(2)) for n in ordered
+                           if ATOMNAME.match(sub.nodes[n].get("atomname") or "")]
+                if len(indices) == len(ordered) and indices != list(range(len(ordered))):
+                    out.append(("C12.naming", "coarse node %r: atom name indices %r do not run along its atoms (keys %r)"
+                                % (cnode, indices[:12], ordered[:12])))
         for node in fine.nodes:
             name = fine.nodes[node].get("atomname")
             match = ATOMNAME.match(name or "")
